@@ -300,9 +300,14 @@ pub fn run(case: &SessionCase, tag: u64) -> Outcome {
                 if let Some(k) = sys_kind {
                     bump(&mut c, &format!("fault.{}", k.name()));
                     bump(&mut c, &format!("probe.sys_fault_hit_{}", srec.fired_what));
-                    if !k.is_benign() {
+                    // the fault counts as a failed write only if the seam actually failed a call
+                    // (a full disk that sets in at a call which is not a write, with no write
+                    // after it, fails nothing) or killed the process
+                    if !k.is_benign() && (srec.failed_by_shim > 0 || k.is_kill()) {
                         out.faults_fired += 1;
                         rec.fault_fired = Some(k.name());
+                    } else if !k.is_benign() {
+                        bump(&mut c, "sys_faults_that_failed_no_call");
                     }
                 }
                 if let Some(name) = rec.fault_fired {
@@ -347,10 +352,17 @@ pub fn run(case: &SessionCase, tag: u64) -> Outcome {
                             out.faults_fired += 1;
                         }
                         if let Some(diff) = world::describe_diff(&tree, &artifacts) {
-                            let verdict = if rec.fault_fired.is_some() {
-                                Some(("C19", "success-reported-although-a-write-failed"))
-                            } else if dirty {
+                            let verdict = if dirty {
+                                // the last write phase failed: this compile starts from no belief
+                                // and re-creates everything, whatever happened to the directory
                                 Some(("C19", "not-repaired-after-interrupted-write"))
+                            } else if was_tampered && rec.fault_fired.is_some() {
+                                // an injected failure on top of external damage: the difference
+                                // cannot be attributed (C18 is silent after external damage)
+                                bump(&mut c, "compiles_not_judged_after_external_damage");
+                                None
+                            } else if rec.fault_fired.is_some() {
+                                Some(("C19", "success-reported-although-a-write-failed"))
                             } else if real_io_error {
                                 // the operating system refused a write (the directory was damaged
                                 // by somebody else), the compile nevertheless reports success
